@@ -19,6 +19,7 @@ import (
 	"github.com/tendermint/tendermint/libs/log"
 	"github.com/tendermint/tendermint/light"
 	"github.com/tendermint/tendermint/p2p"
+	ssproto "github.com/tendermint/tendermint/proto/tendermint/statesync"
 	sm "github.com/tendermint/tendermint/state"
 	"github.com/tendermint/tendermint/statesync"
 	"github.com/tendermint/tendermint/types"
@@ -90,9 +91,27 @@ func u32(s string) uint32 { v, _ := strconv.ParseUint(s, 10, 32); return uint32(
 type fakePeer struct {
 	p2p.Peer
 	id p2p.ID
+	w  *world // set for the peers of a syncer: they answer chunk requests when the world is live
 }
 
 func (p *fakePeer) ID() p2p.ID { return p.id }
+
+// SendEnvelope is what the syncer's fetcher goroutines (requestChunk) and AddPeer call. In a live
+// world a chunk request is answered at once with the standard bytes for the index.
+func (p *fakePeer) SendEnvelope(e p2p.Envelope) bool {
+	req, ok := e.Message.(*ssproto.ChunkRequest)
+	if !ok || p.w == nil || !p.w.live {
+		return true
+	}
+	p.w.mtx.Lock()
+	p.w.requests = append(p.w.requests, req.Index)
+	p.w.mtx.Unlock()
+	_, _ = p.w.sy.AddChunk(&statesync.VerifChunk{Height: req.Height, Format: req.Format, Index: req.Index,
+		Chunk: stdBody(req.Index), Sender: p.id})
+	return true
+}
+
+func (p *fakePeer) TrySendEnvelope(e p2p.Envelope) bool { return p.SendEnvelope(e) }
 
 type snapT struct {
 	h          uint64
@@ -181,6 +200,7 @@ type applyV struct {
 	refetch []uint32
 	rejs    []string
 	pre     []msgT
+	conc    []msgT // chunks delivered from another goroutine while the verdict is being processed
 }
 type infoV struct {
 	kind   string // echo | err | info
@@ -213,6 +233,7 @@ func semis(s string) []string {
 }
 
 var (
+	raceHist    int
 	histMtx     sync.Mutex
 	runHist     = map[string]int{}
 	verdictHist = map[string]int{}
@@ -237,13 +258,16 @@ type world struct {
 	curHash  []byte
 	tmp      string
 	slowWait bool // a wait nothing can satisfy was entered (real chunkTimeout)
+	live     bool // real fetcher goroutines; peers answer their requests
+	requests []uint32
+	concWG   sync.WaitGroup
 }
 
 func (w *world) peer(id string) *fakePeer {
 	if p, ok := w.peers[id]; ok {
 		return p
 	}
-	p := &fakePeer{id: p2p.ID(id)}
+	p := &fakePeer{id: p2p.ID(id), w: w}
 	w.peers[id] = p
 	return p
 }
@@ -302,7 +326,9 @@ func (w *world) deliver(m msgT) string {
 	} else {
 		r = w.addChunk(m)
 	}
-	w.journal = append(w.journal, fmt.Sprintf("%s=%s", m, r))
+	if !w.live || m.isSnap {
+		w.journal = append(w.journal, fmt.Sprintf("%s=%s", m, r))
+	}
 	return r
 }
 
@@ -318,6 +344,7 @@ func topTied(p *statesync.VerifSnapshotPool) bool {
 
 // StateProvider
 func (w *world) AppHash(ctx context.Context, height uint64) ([]byte, error) {
+	w.concWG.Wait()
 	if !w.retrying && topTied(w.sy.VerifPool()) {
 		w.tie = true
 		return nil, light.ErrNoWitnesses
@@ -381,6 +408,7 @@ func (w *world) QuerySync(abci.RequestQuery) (*abci.ResponseQuery, error) {
 }
 
 func (w *world) OfferSnapshotSync(req abci.RequestOfferSnapshot) (*abci.ResponseOfferSnapshot, error) {
+	w.concWG.Wait()
 	v := offerV{res: "accept"}
 	if len(w.offers) > 0 {
 		v, w.offers = w.offers[0], w.offers[1:]
@@ -421,6 +449,7 @@ func nameList(l []string) string {
 }
 
 func (w *world) ApplySnapshotChunkSync(req abci.RequestApplySnapshotChunk) (*abci.ResponseApplySnapshotChunk, error) {
+	w.concWG.Wait()
 	v := applyV{res: "accept"}
 	if len(w.applies) > 0 {
 		v, w.applies = w.applies[0], w.applies[1:]
@@ -435,10 +464,56 @@ func (w *world) ApplySnapshotChunkSync(req abci.RequestApplySnapshotChunk) (*abc
 	if v.res == "retry_snapshot" {
 		w.retrying = true
 	}
+	w.race(v)
+	if w.live && len(v.refetch) > 0 {
+		// let the fetcher goroutines finish their round (everything allocated, Allocate() reports
+		// errDone) before the refetch request comes back
+		time.Sleep(50 * time.Millisecond)
+	}
 	return &abci.ResponseApplySnapshotChunk{Result: applyRes[v.res], RefetchChunks: v.refetch, RejectSenders: v.rejs}, nil
 }
 
+// race delivers the verdict's racing chunks (those of a sender this verdict rejects) from another
+// goroutine so that their AddChunk overlaps with applyChunks' rejection of the sender: a reader
+// holds the syncer lock while applyChunks queues for the write lock (a pending writer blocks new
+// readers), the chunks are sent in that window, then the reader lets go. Whatever the
+// linearisation, the property demands that the chunk is not in the queue afterwards.
+func (w *world) race(v applyV) {
+	var racing []msgT
+	for _, m := range v.conc {
+		rejected := false
+		for _, r := range v.rejs {
+			rejected = rejected || (r != "" && r == m.peer)
+		}
+		if rejected {
+			racing = append(racing, m)
+			w.logf("c%s=raced", m)
+		}
+	}
+	if len(racing) == 0 {
+		return
+	}
+	histMtx.Lock()
+	raceHist++
+	histMtx.Unlock()
+	w.sy.VerifRLock()
+	w.concWG.Add(1)
+	go func() {
+		defer w.concWG.Done()
+		time.Sleep(15 * time.Millisecond) // applyChunks is now waiting for the write lock
+		var wg sync.WaitGroup
+		for _, m := range racing {
+			wg.Add(1)
+			go func(m msgT) { defer wg.Done(); w.addChunk(m) }(m)
+		}
+		time.Sleep(15 * time.Millisecond)
+		w.sy.VerifRUnlock()
+		wg.Wait()
+	}()
+}
+
 func (w *world) InfoSync(abci.RequestInfo) (*abci.ResponseInfo, error) {
+	w.concWG.Wait()
 	v := infoV{kind: "echo"}
 	if len(w.infos) > 0 {
 		v, w.infos = w.infos[0], w.infos[1:]
@@ -455,6 +530,9 @@ func (w *world) InfoSync(abci.RequestInfo) (*abci.ResponseInfo, error) {
 	return &abci.ResponseInfo{AppVersion: v.ver, LastBlockAppHash: v.hash, LastBlockHeight: v.height}, nil
 }
 
+// stallAfter: how long a blocked Next() may wait for the fetchers in a live world
+const stallAfter = 6 * time.Second
+
 func stdBody(i uint32) []byte { return []byte{byte(i % 256), 0xfb} }
 
 // monitor feeds the syncer while its Next() is blocked: late messages one at a time until the
@@ -462,6 +540,8 @@ func stdBody(i uint32) []byte { return []byte{byte(i % 256), 0xfb} }
 // code's real chunkTimeout.
 func (w *world) monitor(done <-chan struct{}) {
 	gaveUp := false
+	var waitSince time.Time
+	waitIdx, reqMark := uint32(0), 0
 	for {
 		select {
 		case <-done:
@@ -471,6 +551,31 @@ func (w *world) monitor(done <-chan struct{}) {
 		idx, waiting := w.sy.VerifWaiting()
 		if !waiting {
 			gaveUp = false
+			waitSince = time.Time{}
+			continue
+		}
+		w.concWG.Wait()
+		if w.live {
+			// the fetcher goroutines must serve the wait (they poll every 2s once everything has
+			// been allocated); if they do not within the deadline, note it and rescue the run
+			w.mtx.Lock()
+			nreq := len(w.requests)
+			w.mtx.Unlock()
+			if waitSince.IsZero() || waitIdx != idx {
+				waitSince, waitIdx, reqMark = time.Now(), idx, nreq
+			} else if time.Since(waitSince) > stallAfter {
+				again := "not-requested"
+				w.mtx.Lock()
+				for _, r := range w.requests[reqMark:] {
+					if r == idx {
+						again = "requested"
+					}
+				}
+				w.mtx.Unlock()
+				w.logf("STALL:%d:%s", idx, again)
+				w.addChunk(msgT{peer: "p1", h: w.cur.h, f: w.cur.f, i: idx, body: stdBody(idx)})
+				waitSince = time.Time{}
+			}
 			continue
 		}
 		if gaveUp {
@@ -508,6 +613,7 @@ func (w *world) run() string {
 	st, commit, err := w.sy.SyncAny(0, func() {})
 	close(done)
 	wg.Wait()
+	w.concWG.Wait()
 	if err != nil && strings.Contains(err.Error(), "failed to create chunk queue") && topTied(w.sy.VerifPool()) {
 		// Best() had to choose among equally ranked snapshots (one of them without chunks)
 		w.tie = true
@@ -638,7 +744,7 @@ func poolDump(p *statesync.VerifSnapshotPool, known map[string][]byte) string {
 // required keys per op: n = decimal, x = hex or "-", b = body (hex, "-", "nil"), s = name
 var opKeys = map[string]string{
 	"q.new": "h:n f:n c:n", "q.add": "h:n f:n i:n b:b p:s", "q.discard": "i:n", "q.dsender": "p:s", "q.sender": "i:n",
-	"q.has": "i:n", "q.retry": "i:n", "q.wait": "i:n",
+	"q.has": "i:n", "q.retry": "i:n", "q.wait": "i:n", "s.live": "n:n",
 	"p.add": "peer:s h:n f:n c:n hash:x meta:x", "p.peers": "h:n f:n c:n hash:x meta:x", "p.reject": "h:n f:n c:n hash:x meta:x",
 	"p.rejfmt": "f:n", "p.rejpeer": "peer:s", "p.rmpeer": "peer:s",
 	"s.snap": "peer:s h:n f:n c:n hash:x meta:x", "s.chunk": "h:n f:n i:n b:b p:s", "s.fallback": "p:s",
@@ -702,14 +808,15 @@ func execCase(c core.Case) (out []string) {
 	poolPeers := map[string]*fakePeer{}
 	known := map[string][]byte{} // key hash -> preimage
 	note := func(s snapT) { known[string(s.real().VerifKey())] = s.preimage() }
-	newWorld := func() *world {
-		w := &world{peers: map[string]*fakePeer{}, env: map[uint64]envRow{}, tmp: tmp, fallback: "pf"}
+	newWorld := func(fetchers int) *world {
+		w := &world{peers: map[string]*fakePeer{}, env: map[uint64]envRow{}, tmp: tmp, fallback: "pf", live: fetchers > 0}
 		cfg := config.DefaultStateSyncConfig()
-		cfg.ChunkFetchers = 0
+		cfg.ChunkFetchers = int32(fetchers)
+		cfg.ChunkRequestTimeout = 100 * time.Millisecond
 		w.sy = statesync.VerifNewSyncer(*cfg, log.NewNopLogger(), w, w, w, tmp)
 		return w
 	}
-	w := newWorld()
+	w := newWorld(0)
 	noteMsgs := func(ms []msgT) {
 		for _, m := range ms {
 			if m.isSnap {
@@ -881,8 +988,16 @@ func execCase(c core.Case) (out []string) {
 		case "p.dump":
 			out = append(out, poolDump(pool, known))
 		case "s.new":
-			w = newWorld()
+			w = newWorld(0)
 			out = append(out, "ok")
+		case "s.live":
+			n := int(u64(m["n"]))
+			if n == 0 || n > 16 {
+				out = append(out, "bad-op")
+			} else {
+				w = newWorld(n)
+				out = append(out, "ok")
+			}
 		case "s.snap":
 			s := parseSnapKV(m)
 			note(s)
@@ -923,7 +1038,7 @@ func execCase(c core.Case) (out []string) {
 			if ok {
 				for _, t := range semis(f[1]) {
 					p := strings.Split(t, "/")
-					if len(p) != 4 {
+					if len(p) != 4 && len(p) != 5 {
 						ok = false
 						break
 					}
@@ -934,6 +1049,17 @@ func execCase(c core.Case) (out []string) {
 					}
 					noteMsgs(ms)
 					v := applyV{res: p[0], pre: ms}
+					if len(p) == 5 {
+						cs, ok3 := parseMsgs(p[4])
+						for _, c := range cs {
+							ok3 = ok3 && !c.isSnap
+						}
+						if !ok3 {
+							ok = false
+							break
+						}
+						v.conc = cs
+					}
 					for _, x := range commaList(p[1]) {
 						v.refetch = append(v.refetch, u32(x))
 					}
